@@ -8,29 +8,75 @@
 #[cfg(not(kani))]
 mod tape {
     use std::cell::RefCell;
+    pub struct State {
+        pub vals: Vec<Vec<u8>>,
+        pub pos: usize,
+        /// oracle self-validation mode: values behind the tape come from a PRNG, assume() unwinds
+        pub fuzz: Option<u64>,
+        pub drawn: Vec<Vec<u8>>,
+    }
     thread_local! {
-        pub static TAPE: RefCell<(Vec<Vec<u8>>, usize)> = RefCell::new((Vec::new(), 0));
+        pub static TAPE: RefCell<State> = RefCell::new(State { vals: Vec::new(), pos: 0, fuzz: None, drawn: Vec::new() });
     }
     pub fn load(v: Vec<Vec<u8>>) {
-        TAPE.with(|t| *t.borrow_mut() = (v, 0));
+        TAPE.with(|t| *t.borrow_mut() = State { vals: v, pos: 0, fuzz: None, drawn: Vec::new() });
+    }
+    pub fn load_fuzz(seed: u64) {
+        TAPE.with(|t| *t.borrow_mut() = State { vals: Vec::new(), pos: 0, fuzz: Some(seed | 1), drawn: Vec::new() });
+    }
+    pub fn drawn() -> Vec<Vec<u8>> {
+        TAPE.with(|t| t.borrow().drawn.clone())
+    }
+    pub fn is_fuzz() -> bool {
+        TAPE.with(|t| t.borrow().fuzz.is_some())
     }
     pub fn next(sz: usize) -> Vec<u8> {
         TAPE.with(|t| {
             let t = &mut *t.borrow_mut();
-            let r = match t.0.get(t.1) {
+            let r = match t.vals.get(t.pos) {
                 Some(e) => e.clone(),
-                // tape exhausted: the solver did not care about the value
-                None => vec![0u8; sz],
+                None => match &mut t.fuzz {
+                    // tape exhausted: the solver did not care about the value
+                    None => vec![0u8; sz],
+                    Some(x) => {
+                        let mut v = Vec::with_capacity(sz);
+                        if sz == 8 {
+                            // usize draws are lengths / counts / indices in the harnesses: keep them small
+                            *x ^= *x << 13;
+                            *x ^= *x >> 7;
+                            *x ^= *x << 17;
+                            let small = (*x >> 33) % 80;
+                            v.extend_from_slice(&small.to_ne_bytes());
+                        }
+                        for _ in v.len()..sz {
+                            *x ^= *x << 13;
+                            *x ^= *x >> 7;
+                            *x ^= *x << 17;
+                            let b = (*x >> 24) as u8;
+                            // bias towards small and boundary values (lengths, type bytes)
+                            v.push(match (*x >> 40) % 8 {
+                                0 => b % 8,
+                                1 => b % 64,
+                                2 => 0,
+                                _ => b,
+                            });
+                        }
+                        v
+                    }
+                },
             };
-            t.1 += 1;
+            t.pos += 1;
             if r.len() != sz {
-                eprintln!("REPLAY-TAPE-MISMATCH: entry {} has {} bytes, harness asked for {}", t.1 - 1, r.len(), sz);
+                eprintln!("REPLAY-TAPE-MISMATCH: entry {} has {} bytes, harness asked for {}", t.pos - 1, r.len(), sz);
                 std::process::exit(3);
             }
+            t.drawn.push(r.clone());
             r
         })
     }
 }
+#[cfg(not(kani))]
+pub use tape::{drawn, load_fuzz};
 #[cfg(not(kani))]
 pub use tape::load;
 
@@ -92,10 +138,16 @@ pub fn assume(c: bool) {
     kani::assume(c);
     #[cfg(not(kani))]
     if !c {
+        if tape::is_fuzz() {
+            std::panic::panic_any(AssumeViolated);
+        }
         eprintln!("REPLAY-ASSUMPTION-VIOLATED");
         std::process::exit(3);
     }
 }
+
+#[cfg(not(kani))]
+pub struct AssumeViolated;
 
 /// Reachability witness (vacuity guard). The driver requires every witness SATISFIED.
 #[macro_export]
@@ -114,7 +166,9 @@ macro_rules! witness {
 
 #[cfg(not(kani))]
 pub fn hit(name: &str) {
-    println!("REPLAY-WITNESS {}", name);
+    if !tape::is_fuzz() {
+        println!("REPLAY-WITNESS {}", name);
+    }
 }
 
 /// symbolic value `<= max`
